@@ -86,14 +86,35 @@ func runC16(t *testing.T, c *choice.Stream, r *Result, opt RunOpt) {
 		r.Cell = kindName(cs.RT)
 		r.Sample = map[string]any{"type": cs.Type, "history": names}
 	}()
+	// a LowCardinality column whose dictionary outgrows its key width in the
+	// course of its life: a small prepare, then a prepare with several hundred
+	// distinct values, and only then the drawn history
+	var forced []string
+	if strings.Contains(cs.Type, "LowCardinality") && c.Bool("lc.growth", 1, 6) {
+		forced = []string{"append", "prepare", "append+", "prepare"}
+		n += len(forced)
+	}
 	for i := 0; i < n && r.Outcome != "violation"; i++ {
+		forceWide := false
+		if len(forced) > 0 {
+			forceWide = forced[0] == "append+"
+		}
 		op := []string{"append", "reset", "prepare", "encode", "write", "rawblock", "infer", "decode", "faildecode", "overwrite", "blockdecode", "reinfer"}[c.Weighted("op", 6, 2, 1, 5, 3, 2, 1, 3, 2, 2, 2, 1)]
+		if len(forced) > 0 {
+			op = strings.TrimSuffix(forced[0], "+")
+			forced = forced[1:]
+		}
 		fmt.Fprintf(h, "|%s", op)
 		switch op {
 		case "append":
 			k := c.Range("append.n", 1, 5)
-			if c.Bool("append.many", 1, 12) {
+			if forceWide {
+				k = 600 // gen.Values builds a dictionary of 254..553 entries for half of such columns
+			} else if c.Bool("append.many", 1, 12) {
 				k = c.Pick("append.big", 250, 300, 1000)
+			} else if strings.Contains(cs.Type, "LowCardinality") && c.Bool("append.many.lc", 1, 4) {
+				// enough rows for a dictionary that needs wider keys than before
+				k = c.Pick("append.big.lc", 260, 300, 700)
 			}
 			names = append(names, fmt.Sprintf("append(%d)", k))
 			vals := gen.Values(vr, cs.RT, k)
